@@ -128,8 +128,11 @@ def Spec.trial? (s : Spec) (tid : Nat) : Option TrialS :=
   | some t => if (s.study? t.study).isSome then some t else none
 
 /-- Trials of a study, in creation (= number) order, with their ids. -/
-def Spec.trialsOf (s : Spec) (sid : Nat) : List (Nat × TrialS) :=
-  (s.trials.zipIdx.filter (fun p => p.1.study == sid)).map (fun p => (p.2, p.1))
+def trialsFrom (sid : Nat) : List TrialS → Nat → List (Nat × TrialS)
+  | [], _ => []
+  | t :: r, i => if t.study == sid then (i, t) :: trialsFrom sid r (i + 1) else trialsFrom sid r (i + 1)
+
+def Spec.trialsOf (s : Spec) (sid : Nat) : List (Nat × TrialS) := trialsFrom sid s.trials 0
 
 def Spec.nameTaken (s : Spec) (name : String) : Bool :=
   s.studies.any (fun o => match o with | some st => st.name == name | none => false)
@@ -195,15 +198,19 @@ def Spec.templateConflict (s : Spec) (sid : Nat) (name : String) (d : Dist) : Bo
     | some q => !(q.dist.compat d)
     | none => false)
 
+/-- Is `d` incompatible with the distribution that `set_trial_param` calls have fixed for `name`? -/
+def StudyS.fixedConflict (st : StudyS) (name : String) (d : Dist) : Bool :=
+  match st.paramDist.get? name with
+  | some d0 => !(d0.compat d)
+  | none => false
+
 /-- Does a template carry, for some name, a distribution incompatible with what the study already
 holds for that name (fixed by `set_trial_param` or carried by another trial)?  Whether creating
 such a trial is an error is not specified (U1). -/
 def Spec.tmplConflict (s : Spec) (sid : Nat) (st : StudyS) : Option Template → Bool
   | none => false
   | some t => t.params.any (fun p =>
-      (match st.paramDist.get? p.1 with
-        | some d => !(d.compat p.2.dist)
-        | none => false) || s.templateConflict sid p.1 p.2.dist)
+      st.fixedConflict p.1 p.2.dist || s.templateConflict sid p.1 p.2.dist)
 
 def step (s : Spec) : Op → Spec × Out
   | .createStudy name dirs =>
@@ -237,10 +244,7 @@ def step (s : Spec) : Op → Spec × Out
       match s.study? t.study with
       | none => (s, .err .keyError)
       | some st =>
-        let fixedConflict := match st.paramDist.get? name with
-          | some d => !(d.compat p.dist)
-          | none => false
-        if fixedConflict then (s, .err .valueError)
+        if st.fixedConflict name p.dist then (s, .err .valueError)
         else if s.templateConflict t.study name p.dist && implRaised then (s, .err .valueError)
         else
           (((s.updTrial tid (fun t => { t with params := t.params.set name p })).updStudy t.study
@@ -253,7 +257,7 @@ def step (s : Spec) : Op → Spec × Out
       else
         (s.updTrial tid (fun t => { t with
             state := st,
-            values := (match values with | some v => some v | none => t.values),
+            values := values.or t.values,
             hasStart := t.hasStart || st == .running,
             hasComplete := t.hasComplete || st.isFinished }), .bool true)
   | .setTrialInter tid stp v =>
